@@ -73,13 +73,15 @@ def main():
     results = {}
     for p in props:
         t0 = time.time()
-        rc, out = sh("./check %s --tier quick" % p, cwd=scratch, env={"TCHERAN_REPO": wt}, timeout=3000)
+        tier = os.environ.get("SEED_TIER", "quick")
+        rc, out = sh("./check %s --tier %s" % (p, tier), cwd=scratch, env={"TCHERAN_REPO": wt}, timeout=6000)
         viol = [l for l in out.splitlines() if l.startswith("VIOLATION")]
         detail = [l for l in out.splitlines() if l.startswith("  ")][:3]
         results[p] = {"exit": rc, "violations": len(viol), "wall_s": round(time.time() - t0, 1), "first": detail,
                       "tail": out.splitlines()[-2:] if rc not in (0, 1) else []}
         print("check", p, "-> exit", rc, "violations", len(viol), detail[:1])
     meta["check_results"] = results
+    meta["tier"] = os.environ.get("SEED_TIER", "quick")
     meta["caught_by"] = [p for p, r in results.items() if r["exit"] == 1 and r["violations"] > 0]
     sh("git checkout -- . ; rm -f src/tests/seed_demo.rs", cwd=wt)
     shutil.rmtree(scratch, ignore_errors=True)
